@@ -1,6 +1,6 @@
 """C14 - alias rewriting is exact substitution on field references only.
 
-TLC (MC_C14) enumerates (tree, alias map) pairs - 17 adversarial alias maps x all trees with <= MaxOps nodes over
+TLC (MC_C14) enumerates (tree, alias map) pairs - 19 adversarial alias maps x all trees with <= MaxOps nodes over
 atoms colliding with the keys in every way the property lists - and computes the expected result with
 Rewrite!Subst; it also checks the identity and bijection laws on the spec.  Replay: the alias map is handed to
 AliasRewriter as OData text, the tree as real AST objects; result must equal the expectation, the input tree must
@@ -85,8 +85,8 @@ def check_cases(ctx, records):
 
 
 def run(ctx):
-    ctx.rule = ("(tree, alias map): all trees with <= MaxOps operator/bracket nodes over 22 atoms (paths, calls named "
-                "like keys, named parameters, lambdas binding key names) x 17 alias maps; non-trivial = distinct pair "
+    ctx.rule = ("(tree, alias map): all trees with <= MaxOps operator/bracket nodes over 25 atoms (paths, calls named "
+                "like keys, named parameters, lambdas binding key names) x 19 alias maps; non-trivial = distinct pair "
                 "whose expected result differs from the input")
     ctx.trusted = ["spec/Rewrite.tla Subst (laws checked by TLC)", "harness/project.py"]
     big = ctx.tier != "quick"
